@@ -335,10 +335,13 @@ def _hdr():
 @st.composite
 def _file_cases(draw, truncated=False):
     coding = draw(st.sampled_from(sw.CODINGS))
-    c = draw(st.sampled_from([1, 1, 1, 2, 3, 4, 5, 6, 7, 8] if truncated else [1, 2, 3, 3, 4, 5, 5, 6, 6, 7, 7, 8]))
+    c = draw(st.sampled_from([1, 1, 1, 2, 3, 4, 5, 6, 7, 8] if truncated else [1, 2, 3, 3, 4, 5, 5, 6, 6, 7, 7, 8, 17, 64]))
     fb = sw.frame_bytes(coding, c)
-    mode = draw(st.sampled_from(["small", "any", "near", "near", "near", "near"]))
-    if mode == "near":
+    mode = draw(st.sampled_from(["small", "any", "near", "near", "near", "near"] * 6 + ["huge"]))
+    if mode == "huge":
+        # a recording of more than 2 MiB: beyond any plausible read-ahead size (2**16 ... 2**20 bytes), one frame more or less
+        n = (2 ** 21 + 2 ** 19) // fb + draw(st.sampled_from([-1, 0, 1, 1000]))
+    elif mode == "near":
         n = READ * draw(st.sampled_from([1, 2, 2, 3])) // fb + draw(st.sampled_from([-1, 0, 1]))
     elif mode == "small":
         n = draw(st.integers(1, 64))
